@@ -31,7 +31,7 @@ RULE = ('every (attack kind, injection position, protocol, transport); non-trivi
         'and was processed while all monitors were armed (monitor self-tests passed); distinct by the full tuple')
 ASSUMPTIONS = ['libxml2 in this image has no HTTP/FTP client, so network contact is observed through the parser options and a listening canary socket only',
                'bounds for bombs: 10 s wall time and 256 MiB resident-memory growth in a child process']
-FLOOR = {'quick': 400, 'thorough': 3000}
+FLOOR = {'quick': 400, 'thorough': 1200}
 TNS = universe.TNS
 I = ['p', 'Integer', {}]
 U = ['p', 'Unicode', {}]
@@ -146,7 +146,14 @@ class Monitors(object):
         shutil.rmtree(self.dir, ignore_errors=True)
 
 
-def programs():
+def programs(which=0):
+    if which == 1:
+        Q = {'n': 'Q', 'fields': [['q', U], ['qa', ['xa', U]], ['d', ['p', 'Date', {}]]]}
+        P = {'n': 'P', 'fields': [['s', U], ['at', ['xa', U]], ['qs', ['a', ['c', 'Q', {}], {}]], ['u', ['p', 'Unicode', {'max_occurs': 'unbounded'}]]]}
+        m = {'n': 'm', 'args': [['a', ['c', 'P', {}]], ['t', U]], 'ret': U}
+        import datetime
+        return ({'tns': TNS, 'classes': [Q, P], 'services': [{'n': 'S', 'methods': [m]}]},
+                [Obj('P', s='ess', at='attr', qs=[Obj('Q', q='one', qa='qattr', d=datetime.date(2020, 1, 2)), Obj('Q', q='two', qa=None, d=None)], u=['u1', 'u2']), 'tee'])
     P = {'n': 'P', 'fields': [['s', U], ['n', I], ['at', ['xa', U]], ['l', ['a', U, {}]]]}
     m = {'n': 'm', 'args': [['a', ['c', 'P', {}]], ['t', U], ['z', I]], 'ret': U}
     return {'tns': TNS, 'classes': [P], 'services': [{'n': 'S', 'methods': [m]}]}, [Obj('P', s='ess', n=5, at='attr', l=['x', 'y']), 'tee', 7]
@@ -273,6 +280,8 @@ def shards(tier):
     for proto in ('xml', 'soap11', 'soap12'):
         for transport in ('server', 'wsgi'):
             out.append({'kind': 'inject', 'proto': proto, 'transport': transport, 'tier': tier})
+            if tier == 'thorough':
+                out.append({'kind': 'inject', 'proto': proto, 'transport': transport, 'tier': tier, 'program': 1})
             out.append({'kind': 'bombs', 'proto': proto, 'transport': transport, 'tier': tier})
     return out
 
@@ -334,7 +343,7 @@ def run_shard(shard, only=None):
     res = {'evaluations': 0, 'nontrivial': 0, 'outcomes': {}, 'violations': [], 'samples': [], 'cov': {'programs': 1}, 'notes': {}}
     tier = shard['tier']
     proto, transport = shard['proto'], shard['transport']
-    prog, args = programs()
+    prog, args = programs(shard.get('program', 0))
     from spyne.server.wsgi import WsgiApplication
     h = harness.XmlHarness(prog, proto, None)
     wsgi = WsgiApplication(h.app)
